@@ -14,7 +14,8 @@
 From Coq Require Import ZArith List Bool String Lia.
 From FV Require Import Model.PegSyntax Model.Peg Model.PegWf Model.ParserStrings Model.ParserAst Model.ParserActions
      Model.Parser Model.ParserFiles Gen.Grammar Proofs.PegProofs Proofs.ParserProofs Proofs.ParserLexProofs
-     Proofs.ParserEvals Proofs.ParserRoundTrip Proofs.ParserRoundTripEnum Proofs.ParserPrefixProofs.
+     Proofs.ParserEvals Proofs.ParserRoundTrip Proofs.ParserRoundTripEnum Proofs.ParserPrefixProofs
+     Proofs.ParserRoundTripStruct Proofs.ParserRoundTripFile.
 Import ListNotations.
 Open Scope Z_scope.
 
@@ -173,6 +174,47 @@ Theorem c10_enum_numbering_end_to_end : forall e : en_spec,
 Proof. exact enum_of_numbering. Qed.
 Print Assumptions c10_enum_numbering_end_to_end.
 
+(** * Stage 5, continued: the fragment grown to struct / exception / union declarations with fields.
+    For every sequence of declarations, each either a typedef of a base type or an enum exactly as in
+    [c10_roundtrip_partial], or
+        struct|exception|union <blanks> name <blanks/LFs> { <blanks/LFs> field* } <blanks> LF <blanks/LFs>
+    where a field is
+        id <blanks> : <blanks> [required <blanks> | optional <blanks>] type name TAIL
+    with  id  any 64-bit integer in decimal (negative ids included),  type  one of
+        base <blanks>  |  list< <blanks> type > <blanks>  |  set< <blanks> type > <blanks>
+        |  map< <blanks> type , <blanks> type > <blanks>
+    nested to any depth (base = one of the eight base-type keywords; the blanks after an element type
+    are that type's own, so every placement of blanks inside the angle brackets is covered),  name  ANY
+    identifier-shaped byte string, and TAIL one of the three separator styles
+        W  |  W , W'  |  W ; W'
+    (W, W' arbitrary runs of blanks and line breaks; a field with nothing at all after its name only in
+    last position): the parser model -- additionally through Struct, Exception, Union, StructLike,
+    FieldList, Field (with its absent doc comment, default value and annotations), FieldModifier,
+    FieldType, ContainerType, MapType, SetType, ListType (with the absent cpp_type), WS and the failing
+    alternatives of each choice, and the actions Struct1, Exception1, Union1, StructLike1, FieldList1,
+    Field1, FieldModifier1, ContainerType1, MapType1, SetType1, ListType1 and the struct branches of
+    Grammar1 -- returns exactly the declared typedefs, enums, structs, exceptions and unions, each list
+    in source order: every field with its id, name, modifier (default when none is written; all fields
+    of a union optional, as the Grammar action makes them), type tree, no default value, no comment, no
+    annotations; and nothing else.
+    PARTIAL with respect to the property: named (identifier) field types, field default values,
+    services, scopes, constants, includes, namespaces, comments, doc comments, annotations, cpp_type and
+    the ';' / end-of-file statement terminators are not inside the proved fragment. *)
+Theorem c10_roundtrip_structs_partial : forall (w0 : bytes) (ds : list xdecl),
+  run_of p_wsnl w0 -> Forall xdecl_ok ds ->
+  parse_idl (w0 ++ render_file ds) = POk (frugal_of ds).
+Proof. exact roundtrip_file. Qed.
+Print Assumptions c10_roundtrip_structs_partial.
+
+(** the derivation of a field type alone: FieldType on any rendered type, followed by anything that is
+    not a blank, '/' or '(', consumes exactly the type and returns its tree *)
+Theorem c10_field_type_roundtrip : forall (t : ty_spec) (more : bytes) cr o es fr,
+  ty_ok t -> head_not [32; 9; 13; 47; 40] more ->
+  exists o', evals (CRef 22) cr (mkst (render_ty t more) o es) fr
+                   (Done true (VType (ty_of t)) (mkst more o' es) fr).
+Proof. exact (fun t more cr o es fr Hok Hm => field_type_rule t Hok more cr o es fr Hm). Qed.
+Print Assumptions c10_field_type_roundtrip.
+
 (** * Stage 2 and the separator/comment stages: refuted on the code as it is.
     Intended statement (FieldType longest match): for every identifier x that is not a base-type
     keyword, [typedef x T] parses to a typedef of the named type x.
@@ -287,6 +329,65 @@ Proof.
     cbn [e_g1 e_c e_t e_w1 e_w2 e_vs e_g3 e_w v_c v_t v_tail].
     repeat split; try reflexivity; try (repeat constructor; unfold ascii; lia); try (unfold ascii; lia); try lia;
       try (left; reflexivity); try (right; reflexivity); try discriminate.
+  - vm_compute. reflexivity.
+Qed.
+
+(** declarations satisfying the hypotheses of the struct round-trip theorem:
+      struct S<lf>{<lf>  1: i32 a,<lf>  2 :required list<map< string ,set<i64>> > b ;<lf>  -3:optional binary c}<sp><lf>
+      union U {1:bool x<lf>}<lf>exception E{}<lf>typedef i64 T<lf>                                         *)
+Example c10_roundtrip_structs_nonvacuous :
+  let f1 := mk_fd 1 [] [32] M_default (T_base (bytes_of_string "i32") [32]) 97 [] (FT_sep [] 44 [10; 32; 32]) in
+  let ty2 := T_list [] (T_map [32] (T_base (bytes_of_string "string") [32]) [] (T_set [] (T_base (bytes_of_string "i64") []) []) [32]) [32] in
+  let f2 := mk_fd 2 [32] [] (M_required [32]) ty2 98 [] (FT_sep [32] 59 [10; 32; 32]) in
+  let f3 := mk_fd (-3) [] [] (M_optional [32]) (T_base (bytes_of_string "binary") [32]) 99 [] (FT_plain []) in
+  let d1 := mk_st K_struct [32] (mk_sl 83 [] [10] [10; 32; 32] [f1; f2; f3] [32] []) in
+  let d2 := mk_st K_union [32] (mk_sl 85 [] [32] [] [mk_fd 1 [] [] M_default (T_base (bytes_of_string "bool") [32]) 120 [] (FT_plain [10])] [] []) in
+  let d3 := mk_st K_exception [32] (mk_sl 69 [] [] [] [] [] []) in
+  let d4 := mk_td [32] (bytes_of_string "i64") [32] 84 [] [] [] in
+  let ds := [X_struct d1; X_struct d2; X_struct d3; X_typedef d4] in
+  Forall xdecl_ok ds
+  /\ render_file ds = cat [bytes_of_string "struct S"; [10]; bytes_of_string "{"; [10]; bytes_of_string "  1: i32 a,"; [10];
+                           bytes_of_string "  2 :required list<map< string ,set<i64>> > b ;"; [10];
+                           bytes_of_string "  -3:optional binary c} "; [10];
+                           bytes_of_string "union U {1:bool x"; [10]; bytes_of_string "}"; [10]; bytes_of_string "exception E{}"; [10];
+                           bytes_of_string "typedef i64 T"; [10]]
+  /\ parse_idl (render_file ds)
+     = POk (mkfrugal [] [] [mktypedef None [84] (PType (bytes_of_string "i64") None None []) []] [] []
+              [mkstruct None [83]
+                 [mkfield None 1 [97] m_default (PType (bytes_of_string "i32") None None []) None [];
+                  mkfield None 2 [98] m_required
+                    (PType (bytes_of_string "list") None
+                       (Some (PType (bytes_of_string "map") (Some (PType (bytes_of_string "string") None None []))
+                                    (Some (PType (bytes_of_string "set") None (Some (PType (bytes_of_string "i64") None None [])) [])) [])) [])
+                    None [];
+                  mkfield None (-3) [99] m_optional (PType (bytes_of_string "binary") None None []) None []] 0 []]
+              [mkstruct None [69] [] 1 []]
+              [mkstruct None [85] [mkfield None 1 [120] m_optional (PType (bytes_of_string "bool") None None []) None []] 2 []]
+              [] []).
+Proof.
+  split; [|split].
+  - repeat (apply Forall_cons || apply Forall_nil); cbn;
+      repeat match goal with
+             | |- _ /\ _ => split
+             | |- True => exact I
+             | |- Forall _ [] => apply Forall_nil
+             | |- Forall _ (_ :: _) => apply Forall_cons
+             | |- run_of _ _ => unfold run_of
+             | |- st_ok _ => unfold st_ok; cbn
+             | |- sl_ok _ => unfold sl_ok; cbn
+             | |- td_ok _ => unfold td_ok; cbn
+             | |- fd_ok_l _ _ => unfold fd_ok_l; cbn
+             | |- mod_ok _ => unfold mod_ok; cbn
+             | |- fd_tail_ok_l _ _ => unfold fd_tail_ok_l, fd_tail_ok; cbn
+             | |- is_base _ => unfold is_base, base_lits; cbn
+             | |- is_sep _ => unfold is_sep; lia
+             | |- ascii _ => unfold ascii; lia
+             | |- int64 _ => unfold int64; lia
+             | |- _ \/ _ => vm_compute; repeat (first [left; reflexivity | right])
+             | |- _ = _ -> _ => first [discriminate | intros _; reflexivity]
+             | |- _ = _ => reflexivity
+             end.
+  - vm_compute. reflexivity.
   - vm_compute. reflexivity.
 Qed.
 
